@@ -676,6 +676,18 @@ func VerifH13d() {
 		stream = append(stream, 0xFF, 0xFF)
 	}
 	input := vCat(vMsgBytes('Q', vCStr([]byte("copy"))), vMsgBytes('d', stream))
+	if tuples == 0 && !trailer && nondetBool() {
+		// the client sends no CopyData at all: the message that ends the COPY is
+		// the first one the reader sees
+		input = vMsgBytes('Q', vCStr([]byte("copy")))
+		vReach("copy-ended-before-any-copydata")
+	}
+	// the body of a non-COPY message is that message's business: it may well
+	// look like a tuple of the stream (it is never decoded as one)
+	foreign := vCStr([]byte("x"))
+	if end == 2 && nondetBool() {
+		foreign = vCat(vU16(1), vU32(1), []byte{'z', 0})
+	}
 	switch end {
 	case 0:
 		input = vCat(input, vMsgBytes('c', nil))
@@ -684,7 +696,7 @@ func VerifH13d() {
 		vAssume(vNoNUL(desc))
 		input = vCat(input, vMsgBytes('f', vCStr(desc)))
 	default:
-		input = vCat(input, vMsgBytes('Q', vCStr([]byte("x"))))
+		input = vCat(input, vMsgBytes('Q', foreign))
 	}
 	var rows [][]any
 	var endErr error
